@@ -6,6 +6,8 @@ package gmars
 // queries isolate the scheduling logic.
 
 func init() {
+	vHarness["C02_fifo"] = VerifHarness_C02_fifo
+	vHarness["C02_load"] = VerifHarness_C02_load
 	vHarness["C02_queue"] = VerifHarness_C02_queue
 	vHarness["C02_pop"] = VerifHarness_C02_pop
 	vHarness["C02_cycle"] = VerifHarness_C02_cycle
@@ -51,6 +53,59 @@ func VerifHarness_C02_queue() {
 	vAssert("pop-shortens", q.length == n1-1)
 	vAssert("pop-advances", vImplies(q.length >= 1, q.queue[q.start] == second))
 	vObserve("popped", uint64(v))
+	vReach("end")
+}
+
+// the queue through its own operations only (no look at its storage): from
+// every state reachable by rotating an empty queue k times and pushing n
+// arbitrary addresses (any 64-bit value below 2^40: the queue does not know
+// the core size), Values lists them in order, a further Push appends or is
+// dropped at the limit, and Pop returns them first-in first-out
+func VerifHarness_C02_fifo() {
+	P := vParam("P")
+	q := newProcessQueue(Address(P))
+	k := vPick("rot", 0, P-1)
+	for i := 0; i < k; i++ {
+		q.Push(0)
+		q.Pop()
+	}
+	n := vPick("n", 0, P)
+	vals := make([]Address, 0, P+1)
+	for i := 0; i < n; i++ {
+		a := Address(vU64("val"))
+		vAssume(a < 1<<40)
+		q.Push(a)
+		vals = append(vals, a)
+	}
+	extra := Address(vU64("extra"))
+	vAssume(extra < 1<<40)
+	q.Push(extra)
+	if n < P {
+		vals = append(vals, extra)
+	}
+	vAssert("length-counts-kept-pushes", int(q.Len()) == len(vals))
+	got := q.Values()
+	vAssert("values-has-length-entries", len(got) == len(vals))
+	if len(got) != len(vals) {
+		return
+	}
+	for i := range vals {
+		vAssert("values-in-push-order", got[i] == vals[i])
+	}
+	if nx, err := q.Next(); len(vals) > 0 {
+		vAssert("next-is-front", err == nil && nx == vals[0])
+	}
+	for i := range vals {
+		v, err := q.Pop()
+		vAssert("pop-is-first-in-first-out", err == nil && v == vals[i])
+	}
+	_, err := q.Pop()
+	vAssert("pop-fails-when-empty", err != nil && q.Len() == 0)
+	// and the emptied queue is as good as new
+	q.Push(extra)
+	v, err := q.Pop()
+	vAssert("reusable-after-emptying", err == nil && v == extra)
+	vObserve("extra", uint64(extra))
 	vReach("end")
 }
 
@@ -278,6 +333,48 @@ func VerifHarness_C02_run() {
 	vAssertSameSim(s1, s2)
 	vAssert("stops-at-limit-or-decision", vOr(s1.cycleCount == s1.maxCycles, vOr(vAnd(n == 1, s1.warriorLivingCount == 0), vAnd(n > 1, s1.warriorLivingCount <= 1))))
 	vObserveSim(s1)
+	vReach("end")
+}
+
+// loading: a warrior with any entry point, loaded at any offset (also
+// beyond the core size), starts the battle with exactly one task, at
+// (offset + entry point) mod M, its code sits at offset.., and the first
+// cycle executes that task
+func VerifHarness_C02_load() {
+	M := Address(vParam("M"))
+	L := vParam("len")
+	sim, err := NewReportingSimulator(SimulatorConfig{Mode: ICWS94, CoreSize: M, Processes: 2, Cycles: 10, ReadLimit: M, WriteLimit: M, Length: Address(L), Distance: 0})
+	vAssert("simulator-created", err == nil)
+	if err != nil {
+		return
+	}
+	code := make([]Instruction, L)
+	for i := range code {
+		code[i] = vHavocInstr(M)
+	}
+	start := vInt("start")
+	vAssume(start >= 0)
+	vAssume(start < L)
+	w, err := sim.AddWarrior(&WarriorData{Name: "w", Code: code, Start: start})
+	vAssert("added", err == nil)
+	off := Address(vU64("off"))
+	vAssume(off < 4*M)
+	vAssert("spawned", sim.SpawnWarrior(0, off) == nil)
+	q := w.Queue()
+	first := (off + Address(start)) % M
+	vAssert("one-task-at-the-entry-point", len(q) == 1 && q[0] == first)
+	for i := 0; i < L; i++ {
+		vAssert("code-loaded-at-offset", vSameInstr(sim.GetMem((off+Address(i))%M), code[i]))
+	}
+	rec := vNewRecorder(M, 1)
+	sim.AddReporter(rec)
+	vPrune(false)
+	vAbstractArith(true)
+	sim.RunCycle()
+	vAbstractArith(false)
+	vPrune(true)
+	vAssert("first-executed-task-is-the-entry-point", rec.nPop == 1 && rec.lastPop == first && !rec.badAddr)
+	vObserve("first", uint64(first))
 	vReach("end")
 }
 
